@@ -362,6 +362,43 @@ def run_multins(c, backed):
     return out
 
 
+def run_incpos(c, backed):
+    """The <%include> at different places of the includer; values for T's page args a, b from different sources."""
+    sa, sb = set(c["sa"]), set(c["sb"])
+    src = {"a": sa, "b": sb}
+    t = {"/t.html": '<%page args="a=0, b=0"/>\n{open|T}{arg|a|${a}}{ctx|a|${context.get("a", -1)}}'
+                    '{arg|b|${b}}{ctx|b|${context.get("b", -1)}}{close|T}\n'}
+    args = ", ".join("%s=1" % z for z in "ab" if "args" in src[z])
+    inc = '<%%include file="/t.html"%s/>' % (' args="%s"' % args if args else "")
+    m = ""
+    pageargs = ", ".join("%s=4" % z for z in "ab" if "page" in src[z])
+    if pageargs:
+        m += '<%%page args="%s"/>\n' % pageargs
+    if c["pos"] in ("topdef", "selfdef"):
+        m += '<%%def name="d()">%s</%%def>\n' % inc
+    elif c["pos"] == "nested":
+        m += '<%%def name="d()"><%%def name="inner()">%s</%%def>${inner()}</%%def>\n' % inc
+    elif c["pos"] == "calltag":
+        m += '<%def name="w()">${caller.body()}</%def>\n'
+    m += "{open|M}\n"
+    for z in "ab":
+        if "assign" in src[z]:
+            m += "<%% %s = 3 %%>\n" % z
+    if c["pos"] == "body":
+        m += inc + "\n"
+    elif c["pos"] in ("topdef", "nested"):
+        m += "${d()}\n"
+    elif c["pos"] == "selfdef":
+        m += "${self.d()}\n"
+    else:
+        m += '<%%call expr="w()">%s</%%call>\n' % inc
+    m += "{close|M}\n"
+    t["/m.html"] = m
+    kw = {z: 2 for z in "ab" if "render" in src[z]}
+    lk = _lookup_with(t, backed, "incpos")
+    return _observe(lambda: lk.get_template("/m.html").render(**kw))
+
+
 def _plain(u):
     return not u["empty"] and all(s not in ("", ".", "..") for s in u["segs"])
 
@@ -379,6 +416,8 @@ def _run_batch(args):
                 obs = run_inh(c, backed)
             elif c["fam"] == "multins":
                 obs = run_multins(c, backed)
+            elif c["fam"] == "incpos":
+                obs = run_incpos(c, backed)
             else:
                 obs = run_include(c, backed)
         except MachineryError:
@@ -460,7 +499,7 @@ def check(run):
     if res.violated:
         run.spec_violation(res)
         return {"rule": "TLC found the design model violating %s" % res.violated, "exhaustive": True}
-    for a in ("Resolve", "PopulateImports", "Calls", "GenNamespaces", "Bodies", "Include", "MakeNamespace", "Probe", "Finish"):
+    for a in ("Resolve", "PopulateImports", "Calls", "GenNamespaces", "Bodies", "Include", "IncludeAt", "MakeNamespace", "Probe", "Finish"):
         if not res.coverage.get(a, [0, 0])[1]:
             raise MachineryError("vacuous model checking: action %s never taken (%s)" % (a, res.coverage))
     run.extra["action_coverage"] = {a: v[1] for a, v in res.coverage.items() if a[0].isupper()}
